@@ -81,7 +81,7 @@ def solver_eigen_scipy(**kwargs) -> EigenSolver:
 
     def solver(K, M, **solve_time_kwargs):
         from scipy.sparse.linalg import eigs
-        if not K.has_canonical_format:
+        if not getattr(K, 'has_canonical_format', True):
             K = K.copy()  # shift-invert may factorise the operand in place
         # a fixed start vector: ARPACK draws a random one otherwise
         return eigs(K, M=M, **{'v0': np.ones(K.shape[0]),
@@ -108,7 +108,7 @@ def solver_eigen_scipy_sym(**kwargs) -> EigenSolver:
 
     def solver(K, M, **solve_time_kwargs):
         from scipy.sparse.linalg import eigsh
-        if not K.has_canonical_format:
+        if not getattr(K, 'has_canonical_format', True):
             K = K.copy()  # shift-invert may factorise the operand in place
         # a fixed start vector: ARPACK draws a random one otherwise
         return eigsh(K, M=M, **{'v0': np.ones(K.shape[0]),
@@ -121,7 +121,7 @@ def solver_direct_scipy(**kwargs) -> LinearSolver:
     """The default linear solver of SciPy."""
 
     def solver(A, b, **solve_time_kwargs):
-        if not A.has_canonical_format:
+        if not getattr(A, 'has_canonical_format', True):
             A = A.copy()  # spsolve sorts the indices of its operand in place
         return spl.spsolve(A, b, **{**kwargs, **solve_time_kwargs})
 
